@@ -40,11 +40,12 @@ fn main() {
 
 fn run_check(id: &str) -> i32 {
     let r = std::panic::catch_unwind(|| match id {
-        "C01" | "C04" | "C07" | "C08" | "C10" | "C11" | "C17" | "C20" => {
+        "C01" | "C04" | "C06" | "C07" | "C08" | "C10" | "C11" | "C17" | "C20" => {
             let mut rep = Report::new(id, "model_checking");
             match id {
                 "C01" => e1::check_c01(&mut rep),
                 "C04" => e1::check_c04(&mut rep),
+                "C06" => e1::check_c06(&mut rep),
                 "C07" => e1::check_c07(&mut rep),
                 "C08" => e1::check_c08(&mut rep),
                 "C10" => e1::check_c10(&mut rep),
